@@ -5,7 +5,7 @@ Binding (drivers/c04): TLC behaviours replayed into the real ss2022.SlidingWindo
 bases, the last one ending at 2^64-1) and into the real Shadow packet unpackers obtained through
 UDPServer / UDPClient with packets of the real packers, under the synctest clock; plus the property's own
 ghost-set oracle over every sequence of the model's alphabet up to the depth of the quantifier."""
-import json, os, time, random
+import json, os, re, subprocess, time, random
 from concurrent.futures import ThreadPoolExecutor
 import vlib
 from props import common
@@ -13,6 +13,10 @@ from props import common
 SPEC = os.path.join(vlib.VERIF, "specs", "Replay")
 SIZES = [1, 2, 63, 64, 65, 128, 256, 1000]
 BASES = ["0", "2^32", "hi"]
+# Apalache instances: the two smallest windows with the code's block width and ring length; two scaled ones (4-bit blocks, ring length
+# by the documented formula) where the window spans several blocks and where it does not fill the ring
+APALACHE_SIZES = [1, 2]
+APALACHE_SCALED = [(5, 4, 4), (9, 4, 4)]
 SRV_KINDS = '{"good","forged","hdrflip","badtype"}'
 CLI_KINDS = '{"good","forged","hdrflip","badtype","foreign"}'
 
@@ -60,6 +64,35 @@ def sess_consts(k, side, emit=False, **kw):
              EMIT="ACTION_CONSTRAINT Emit" if emit else "")
     c.update(kw)
     return c
+
+
+def apalache_inductive(work, S, B, RB, timeout=900, tag="code"):
+    """Unbounded counters: SlidingWindowInd.tla's IndInv is inductive (base + step) for the filter of size S with the
+    ring length RB read from the compiled code -- Apalache, all naturals for `last` and the presented counter."""
+    d = os.path.join(work, "apalache-%s-%d" % (tag, S))
+    os.makedirs(d, exist_ok=True)
+    src = open(os.path.join(SPEC, "SlidingWindowInd.tla")).read()
+    src, n = re.subn(r"CInit == .*", "CInit == Size = %d /\\ B = %d /\\ RingBlocks = %d" % (S, B, RB), src)
+    if n != 1:
+        raise vlib.Broken("SlidingWindowInd.tla: CInit not found")
+    open(os.path.join(d, "SlidingWindowInd.tla"), "w").write(src)
+    res = {"size": S, "B": B, "ring_blocks": RB, "constants": tag}
+    env = dict(os.environ)
+    env.pop("JAVA_TOOL_OPTIONS", None)
+    for name, init, length in (("base", "Init", 0), ("step", "IndInit", 1)):
+        t0 = time.time()
+        try:
+            p = subprocess.run(["apalache-mc", "check", "--cinit=CInit", "--init=" + init, "--inv=IndInv", "--length=%d" % length,
+                                "--out-dir=" + os.path.join(d, "out-" + name), "SlidingWindowInd.tla"], cwd=d, env=env,
+                               stdout=subprocess.PIPE, stderr=subprocess.STDOUT, text=True, timeout=timeout)
+            m = re.search(r"The outcome is: (\w+)", p.stdout)
+            res[name] = m.group(1) if m else "failed(exit %d)" % p.returncode
+        except subprocess.TimeoutExpired:
+            res[name] = "timeout"
+        res[name + "_s"] = round(time.time() - t0, 1)
+    res["inductive"] = res.get("base") == "NoError" and res.get("step") == "NoError"
+    return res
+
 
 
 def replay_one(v, binary, doc, seed):
@@ -214,6 +247,10 @@ def run(tier, seed, replay):
     cexs = []
     pool = ThreadPoolExecutor(max_workers=6 if big else 8)
     futs = [(job, pool.submit(do_tlc, job)) for job in jobs]
+    # unbounded counters (thorough): Apalache discharges the inductive invariant for a small window on a two-block ring and for
+    # one whose window does not fill its ring, with the ring lengths of the compiled filter
+    apa = ([pool.submit(apalache_inductive, work, S, B, ring[S]) for S in APALACHE_SIZES if S in ring] +
+           [pool.submit(apalache_inductive, work, *t, tag="scaled") for t in APALACHE_SCALED]) if big and "filter" in parts else []
     for (name, kind, kw), fut in futs:
         r = fut.result()
         if not kw.get("simulate"):
@@ -343,4 +380,16 @@ def run(tier, seed, replay):
                             "session_behaviours": len(sbehs) + len(gbehs), "guard_graph_behaviours_fully_probed": len(gbehs), "session_steps": ssteps, "session_twin_runs": twins,
                             "session_state_probes": probes, "session_distinct_action_outcomes": sdist}
     v.coverage["exhaustive"] = big and uncovered == 0
+    if apa:
+        proofs = [f.result() for f in apa]
+        v.coverage["apalache_inductive_invariant"] = proofs
+        for pr in proofs:
+            vlib.log("[apalache] size %d ring %d blocks: base %s step %s" % (pr["size"], pr["ring_blocks"], pr.get("base"), pr.get("step")))
+            if "Error" in (pr.get("base"), pr.get("step")) and not v.violations:
+                # design-level only: nothing of the real code was shown to misbehave, so this is not a verdict
+                raise vlib.Broken("Apalache refutes the inductive invariant of SlidingWindowInd.tla for size %d with the code's ring "
+                                  "length %d, but no replay on the real filter failed: %s" % (pr["size"], pr["ring_blocks"], pr))
+            if not pr["inductive"]:
+                v.notes.append("Apalache did not finish the inductive check for size %d (%s/%s); the bounded TLC + replay results stand"
+                               % (pr["size"], pr.get("base"), pr.get("step")))
     return v.finish()
